@@ -8,7 +8,7 @@ Import ListNotations.
 (* A. nothing after unregister                                               *)
 (* ======================================================================== *)
 Section After.
-Variables (i : nat) (l : lid) (knd : kind) (key : string).
+Context (i : nat) (l : lid) (knd : kind) (key : string).
 
 (* the message whose callback for l has been decided (mutex released) but not
    yet made *)
@@ -208,7 +208,7 @@ Proof.
 Qed.
 
 Section Prov.
-Variable done : list op.   (* the ops applied so far *)
+Context (done : list op).   (* the ops applied so far *)
 
 Definition Pm (s : string) (m : msg) : Prop :=
   exists tp, In (Publish tp m) done /\ subject_of tp = s.
